@@ -102,7 +102,7 @@ def fingerprint_part(part):
                                            o.actual_type, o.normal_type))
                 elif cls is S.Tempo:
                     import partitura.utils.music as M
-                    cat["tempo"].append((t, int(M.to_quarter_tempo(o.unit or "q", o.bpm))))
+                    cat["tempo"].append((t, round(float(M.to_quarter_tempo(o.unit or "q", o.bpm)), 6)))      # (the value, not its integer part)
                 elif cls is S.Words:
                     cat["words"].append((t, o.text, o.staff or 1))
                 elif cls is S.Repeat:
